@@ -269,8 +269,8 @@ def assumptions_for(pid):
     out = p.stdout
     axioms = set()
     for line in out.split('\n'):
-        m = re.match(r'^([A-Za-z_][\w.]*)\s*:', line)
-        if m:
+        m = re.match(r'^([A-Za-z_][\w.]*)\s*(?::|$)', line)       # long names put their type on the next line
+        if m and m.group(1) != 'Axioms' and not line.startswith('Closed'):
             axioms.add(m.group(1))
     closed = out.count('Closed under the global context')
     return sorted(axioms), 'theorems=%d closed=%d rc=%d' % (len(names), closed, p.returncode)
